@@ -1489,8 +1489,10 @@ func init() {
 	// call is slow between its critical sections (stalls at its lock sites), so that some Start
 	// lands after the old run has drained and before the stop call's last bookkeeping.
 	families["stoprestart"] = func(r *Rng) *Plan {
-		p := &Plan{Judge: []string{"C06", "C08", "C19", "C05"}, StartDuringStop: true,
-			NoJudge: []string{"C01", "C02", "C03", "C04", "C07", "C09", "C10", "C11", "C12", "C13", "C18"}}
+		// (not C02/C01: a stop call with DeleteKey that is overtaken by the new run deletes the new
+		// run's record - the unconditional delete of the recorded C01 finding)
+		p := &Plan{Judge: []string{"C06", "C08", "C19", "C05", "C18"}, StartDuringStop: true,
+			NoJudge: []string{"C01", "C02", "C03", "C04", "C07", "C09", "C10", "C11", "C12", "C13"}}
 		baseTiming(r, p, hLattice[:5])
 		p.Insts = mkInsts(r, 1, 1)
 		p.Store = healthyStore(r, p.H/10)
